@@ -2465,3 +2465,65 @@ M("C17", "rf/soft-ctor-keywords-flag-dropped", ALI,
 M("C05", "rf/num-units-map-of-wrong-function", CONT,
   "        return sum(len(units) for units in self._annotations.values())",
   "        return sum(map(bool, self._annotations.values()))", "R-SUP", "counts the annotators that have units")
+
+# =============================================================================================
+# round 7
+# =============================================================================================
+M("C04", "r7/unlabelled-index-is-the-empty-marker", DIS,
+  "            return len(categories)\n", "            return -1\n", "R-C04-0", "an unlabelled real unit is taken for the empty unit by the pair kernel")
+M("C08", "r7/glpk-solve-with-mip-gap", CONT,
+  "            cp.Problem(cp.Minimize(disorders.T @ x), [1 <= matmul, matmul <= 1]).solve(solver=cp.GLPK_MI)",
+  "            cp.Problem(cp.Minimize(disorders.T @ x), [1 <= matmul, matmul <= 1]).solve(solver=cp.GLPK_MI, mip_gap=0.02)", "R-C08-3",
+  "the fallback stops within 2% of the bound")
+M("C02", "r7/module-level-glpk-time-limit", CONT,
+  "CHUNK_SIZE = (10**6) // os.cpu_count()",
+  """CHUNK_SIZE = (10**6) // os.cpu_count()
+try:
+    from cvxopt import glpk as _glpk
+    _glpk.options["tm_lim"] = 10000
+except ImportError:
+    pass""", "R-C02-1", "process-wide option table of the fallback back-end")
+B("C08", "r7/solve-verbose-false", CONT,
+  "            cp.Problem(cp.Minimize(disorders.T @ x), [1 <= matmul, matmul <= 1]).solve(solver=cp.GLPK_MI)",
+  "            cp.Problem(cp.Minimize(disorders.T @ x), [1 <= matmul, matmul <= 1]).solve(solver=cp.GLPK_MI, verbose=False)", "verbosity only")
+M("C18", "r7/add-registers-annotator-before-guard", CONT,
+  """        if segment.duration == 0.0:
+            raise ValueError("Tried adding segment of duration 0.0")
+
+        if annotator not in self._annotations:
+            self._annotations[annotator] = SortedSet()""",
+  """        self.add_annotator(annotator)
+        if segment.duration == 0.0:
+            raise ValueError("Tried adding segment of duration 0.0")
+""", "R-C18-3", "a discarded csv row leaves a phantom annotator")
+M("C02", "r7/override-scales-component-answer", DIS, _COMB_D,
+  """    def valid_alignments(self, continuum):
+        if self.beta == 0:
+            disorders, alignments = self.positional_dissim.valid_alignments(continuum)
+            return self.alpha * disorders, alignments
+        return super().valid_alignments(continuum)
+
+""" + _COMB_D, "R-C02-2")
+M("C11", "r7/pair-cost-capped-to-infinity", DIS,
+  """                        matrix[annot_a, annot_b] = d_mat(unit_arrays[annotator_a][annot_a],
+                                                         unit_arrays[annotator_b][annot_b])""",
+  """                        couple = d_mat(unit_arrays[annotator_a][annot_a], unit_arrays[annotator_b][annot_b])
+                        if couple > 2 * (nb_annotators - 1) * delta_empty:
+                            couple = np.inf
+                        matrix[annot_a, annot_b] = couple""", "R-C11-4")
+B("C08", "r7/module-level-glpk-quiet", CONT,
+  "CHUNK_SIZE = (10**6) // os.cpu_count()",
+  """CHUNK_SIZE = (10**6) // os.cpu_count()
+try:
+    from cvxopt import glpk as _glpk
+    _glpk.options["msg_lev"] = "GLP_MSG_OFF"
+except ImportError:
+    pass""", "verbosity of the fallback back-end only")
+B("C01", "r7/module-level-glpk-quiet-other-property", CONT,
+  "CHUNK_SIZE = (10**6) // os.cpu_count()",
+  """CHUNK_SIZE = (10**6) // os.cpu_count()
+try:
+    from cvxopt import glpk as _glpk
+    _glpk.options["msg_lev"] = "GLP_MSG_OFF"
+except ImportError:
+    pass""", "")
